@@ -52,3 +52,28 @@ Section Spec.
   Fixpoint ofb_spec (iv : block) (ps : list block) : list block :=
     match ps with [] => [] | p :: ps' => let o := E iv in xorb p o :: ofb_spec o ps' end.
 End Spec.
+
+(* state-passing forms used by the proofs: s is the *encrypted* chaining value E(C_{i-1}) that the
+   cfb-mode objects store *)
+Section SpecSt.
+  Variable E : block -> block.
+  Fixpoint cfb_enc_st (s : block) (ps : list block) : list block :=
+    match ps with [] => [] | p :: ps' => let c := xorb p s in c :: cfb_enc_st (E c) ps' end.
+  Fixpoint cfb_dec_st (s : block) (cs : list block) : list block :=
+    match cs with [] => [] | c :: cs' => xorb c s :: cfb_dec_st (E c) cs' end.
+
+  Lemma cfb_enc_spec_st iv ps : cfb_enc_spec E iv ps = cfb_enc_st (E iv) ps.
+  Proof. revert iv; induction ps as [|p ps IH]; intros iv; simpl; auto. now rewrite IH. Qed.
+  Lemma cfb_dec_spec_st iv cs : cfb_dec_spec E iv cs = cfb_dec_st (E iv) cs.
+  Proof. revert iv; induction cs as [|c cs IH]; intros iv; simpl; auto. now rewrite IH. Qed.
+
+  (* CFB-8 at the granularity of the implementation: one-byte blocks *)
+  Fixpoint cfb8_enc_bspec (s : block) (ps : list block) : list block :=
+    match ps with [] => [] | p :: ps' =>
+      let c := xorb p (firstn 1 (E s)) in c :: cfb8_enc_bspec (skipn 1 s ++ firstn 1 c) ps' end.
+  Fixpoint cfb8_dec_bspec (s : block) (cs : list block) : list block :=
+    match cs with [] => [] | c :: cs' =>
+      xorb c (firstn 1 (E s)) :: cfb8_dec_bspec (skipn 1 s ++ firstn 1 c) cs' end.
+  Fixpoint cfb8_breg (s : block) (cs : list block) : block :=
+    match cs with [] => s | c :: cs' => cfb8_breg (skipn 1 s ++ firstn 1 c) cs' end.
+End SpecSt.
